@@ -13,7 +13,21 @@ from aiokafka.structs import TopicPartition
 from env import simkafka, vloop
 from specs import refcodec as R
 
-ASSIGNORS = {"range": RangePartitionAssignor, "roundrobin": RoundRobinPartitionAssignor, "sticky": StickyPartitionAssignor}
+class SplitEntriesAssignor(RoundRobinPartitionAssignor):
+    """a custom assignor that lists every partition in an entry of its own, so a topic appears in several
+    (topic, [partitions]) entries of a member's assignment -- legal on the wire"""
+    name = "rrsplit"
+
+    @classmethod
+    def assign(cls, cluster, members):
+        out = {}
+        for mid, a in super().assign(cluster, members).items():
+            out[mid] = ConsumerProtocolMemberAssignment(a.version, [(t, [p]) for t, ps in a.assignment for p in ps], a.user_data)
+        return out
+
+
+ASSIGNORS = {"range": RangePartitionAssignor, "roundrobin": RoundRobinPartitionAssignor, "sticky": StickyPartitionAssignor,
+             "rrsplit": SplitEntriesAssignor}
 
 
 class Listener(ConsumerRebalanceListener):
@@ -40,6 +54,36 @@ class Listener(ConsumerRebalanceListener):
             m.given[(tp.topic, tp.partition, len(m.assign_epochs))] = snap.get((tp.topic, tp.partition))
         m.assign_epochs.append((m.now(), sorted(assigned), snap))
         m.events.append((m.now(), "assign_end", sorted(assigned)))
+
+
+class DelegatingListener(Listener):
+    """plain methods that hand back the coroutine of an async helper (a wrapper that is not async-aware)"""
+
+    def on_partitions_revoked(self, revoked):
+        return Listener.on_partitions_revoked(self, revoked)
+
+    def on_partitions_assigned(self, assigned):
+        return Listener.on_partitions_assigned(self, assigned)
+
+
+class SyncListener(Listener):
+    """ordinary synchronous callbacks"""
+
+    def on_partitions_revoked(self, revoked):
+        m = self.m
+        m.events.append((m.now(), "revoke_start", sorted(revoked)))
+        m.revoking = set(revoked)
+        m.events.append((m.now(), "revoke_end", sorted(revoked)))
+
+    def on_partitions_assigned(self, assigned):
+        co = Listener.on_partitions_assigned(self, assigned)
+        try:
+            co.send(None)  # the async version never suspends
+        except StopIteration:
+            pass
+
+
+LISTENERS = {"async": Listener, "delegating": DelegatingListener, "sync": SyncListener}
 
 
 class Member:
@@ -75,7 +119,7 @@ class Member:
             fetch_max_wait_ms=50, request_timeout_ms=cfg.get("request_timeout_ms", 1000), retry_backoff_ms=50,
             metadata_max_age_ms=cfg.get("metadata_max_age_ms", 300000),
             group_instance_id=cfg.get("group_instance_id"))
-        self.consumer.subscribe(cfg.get("topics", ["t"]), listener=Listener(self, cfg.get("listener_delay", 0.0)))
+        self.consumer.subscribe(cfg.get("topics", ["t"]), listener=LISTENERS[cfg.get("listener_style", "async")](self, cfg.get("listener_delay", 0.0)))
         await self.consumer.start()
         self.alive = True
         self.events.append((self.now(), "started"))
